@@ -251,6 +251,8 @@ type SimASG struct {
 	VpcZones  string
 	Tagged    bool
 	Gone      bool // no longer returned by DescribeAutoScalingGroups
+	// instances whose termination was accepted and that the group still lists, in state Terminating, for a while
+	Leaving []SimInst
 }
 
 type AwsSim struct {
@@ -258,6 +260,7 @@ type AwsSim struct {
 	rec  *Recorder
 	asgs map[string]*SimASG
 	ec2  *Ec2Sim
+	linger bool // terminated instances stay listed (Terminating) until the harness lets them go
 }
 
 type Ec2Sim struct {
@@ -281,6 +284,9 @@ func newAwsSim(rec *Recorder) *AwsSim {
 
 func (a *AwsSim) protoAsg(g *SimASG) PAsg {
 	p := PAsg{Name: g.Name, Min: g.Min, Max: g.Max, Desired: g.Desired, Instances: []PInst{}, VpcZones: g.VpcZones, Tagged: g.Tagged}
+	for _, i := range g.Leaving {
+		p.Instances = append(p.Instances, PInst{i.ID, i.AZ})
+	}
 	for _, i := range g.Instances {
 		p.Instances = append(p.Instances, PInst{i.ID, i.AZ})
 	}
@@ -313,8 +319,16 @@ func (a *AwsSim) DescribeAutoScalingGroups(in *autoscaling.DescribeAutoScalingGr
 			DesiredCapacity:      awsapi.Int64(g.Desired),
 			VPCZoneIdentifier:    awsapi.String(g.VpcZones),
 		}
-		for _, i := range g.Instances {
-			grp.Instances = append(grp.Instances, &autoscaling.Instance{InstanceId: awsapi.String(i.ID), AvailabilityZone: awsapi.String(i.AZ)})
+		for _, i := range g.Leaving {
+			grp.Instances = append(grp.Instances, &autoscaling.Instance{InstanceId: awsapi.String(i.ID), AvailabilityZone: awsapi.String(i.AZ),
+				LifecycleState: awsapi.String(autoscaling.LifecycleStateTerminating)})
+		}
+		for k, i := range g.Instances {
+			inst := &autoscaling.Instance{InstanceId: awsapi.String(i.ID), AvailabilityZone: awsapi.String(i.AZ)}
+			if a.linger || k%2 == 0 {
+				inst.LifecycleState = awsapi.String(autoscaling.LifecycleStateInService)
+			}
+			grp.Instances = append(grp.Instances, inst)
 		}
 		if g.Tagged {
 			grp.Tags = []*autoscaling.TagDescription{{Key: awsapi.String("k8s.io/atlassian-escalator/enabled"), Value: awsapi.String("true")}}
@@ -358,6 +372,9 @@ func (a *AwsSim) TerminateInstanceInAutoScalingGroup(in *autoscaling.TerminateIn
 		return nil, a.rec.awsErr()
 	}
 	a.rec.record(cTerminateInAsg(id, decr), true, rOk())
+	if a.linger {
+		grp.Leaving = append(grp.Leaving, grp.Instances[idx])
+	}
 	grp.Instances = append(grp.Instances[:idx:idx], grp.Instances[idx+1:]...)
 	if decr {
 		grp.Desired--
@@ -464,12 +481,15 @@ func (e *Ec2Sim) CreateFleet(in *ec2.CreateFleetInput) (*ec2.CreateFleetOutput, 
 	var errs []string
 	var idss [][]string
 	mode := e.fleetMode
-	if mode == "none+err" || mode == "some+err" {
+	if mode == "none+err" || mode == "some+err" || mode == "short+err" {
 		errs = []string{"InsufficientInstanceCapacity"}
 		out.Errors = []*ec2.CreateFleetError{{ErrorMessage: awsapi.String("InsufficientInstanceCapacity")}}
 	}
-	if mode == "ok" || mode == "some+err" {
+	if mode == "ok" || mode == "some+err" || mode == "short+err" {
 		total := int(req.Total)
+		if mode == "short+err" && total >= 2 {
+			total = total - 1 - int(e.nextID)%(total-1) // fewer than asked for, at least one
+		}
 		split := e.fleetSplit
 		if split < 1 {
 			split = 1
